@@ -241,7 +241,11 @@ def observe(x, ids, depth=0):
     from yldprolog.engine import Variable, Atom, Functor, get_value
     if depth > OBS_DEPTH_CAP:
         raise TooDeep()
-    x = get_value(x)
+    if isinstance(x, Variable):
+        # variables are dereferenced through the public get_value; compound terms are walked argument by argument
+        # (get_value of a compound term returns a resolved *copy* of the whole term: calling it at every node would
+        # make the observer quadratic and adds nothing to walking the arguments)
+        x = x.get_value()
     if isinstance(x, Variable):
         # get_value may legitimately stop at an unbound variable only
         i = ids.get(id(x))
@@ -308,6 +312,52 @@ def rnd_term(rng, nv, depth, p_leaf=0.35, p_var=0.5, lists=True):
         return mklist(items, tail)
     n = rng.choice((0, 1, 2, 2, 3))
     return ('f', rng.choice(FUNCTORS), tuple(rnd_term(rng, nv, depth - 1, p_leaf, p_var, lists) for _ in range(n)))
+
+
+def big_leaves(rng, nv, n=None, p_var=0.12):
+    """leaves of a big term: mostly atoms, a few variables, the last two more often variables"""
+    n = n or rng.choice((13, 14, 20, 26, 33, 34, 41, 65, 66, 70, 101, 130))
+    out = [rnd_leaf(rng, nv, p_var) for _ in range(n)]
+    for i in (n - 1, n - 2):
+        if rng.random() < 0.5:
+            out[i] = ('v', rng.randrange(nv))
+    return out
+
+
+def build_big(kind, leaves):
+    """'list': [l1,...,ln]; 'open': [l1,...,ln-1|ln]; 'wide': fw(l1,...,ln); 'nest': g2(ln, g2(ln-1, ... l1))"""
+    if kind == 'list':
+        return mklist(leaves)
+    if kind == 'open':
+        return mklist(leaves[:-1], leaves[-1])
+    if kind == 'wide':
+        return ('f', 'fw', tuple(leaves))
+    t = leaves[0]
+    for x in leaves[1:]:
+        t = ('f', 'g2', (x, t))
+    return t
+
+
+def big_pair(rng, nv, kind=None, n=None):
+    """two big terms of the same shape that differ in 0-2 leaves, mostly near the end (so that a clash, if any,
+    comes after many successful element unifications and after variables have been bound)"""
+    kind = kind or rng.choice(('list', 'list', 'open', 'wide', 'nest'))
+    l1 = big_leaves(rng, nv, n)
+    if kind == 'wide' and len(l1) > 70:
+        l1 = l1[:70]
+    l2 = list(l1)
+    n = len(l1)
+    for _ in range(rng.choice((0, 1, 1, 2, 3))):
+        i = rng.choice((n - 1, n - 1, n - 2, n - 3, rng.randrange(n), rng.randrange(n)))
+        l2[i] = rnd_leaf(rng, nv, 0.4)
+    if rng.random() < 0.3:
+        # a variable somewhere in the first half of one side, so that it gets bound long before a clash
+        i = rng.randrange(max(1, n // 2))
+        (l1 if rng.random() < 0.5 else l2)[i] = ('v', rng.randrange(nv))
+    if kind == 'nest':
+        l1.reverse()
+        l2.reverse()           # innermost = last visited
+    return build_big(kind, l1), build_big(kind, l2)
 
 
 def mutate(rng, t, nv, depth):
